@@ -89,6 +89,11 @@ pub trait Family: 'static + Sized {
     fn hb_must(_p: &Program<Self>, _log: &[Entry<Self::Res>]) -> Vec<(usize, usize)> {
         Vec::new()
     }
+    /// C15: "at least one of" edges: the target's clock must dominate the clock of at least one of
+    /// the sources (e.g. a wait woken by one of several notifications).
+    fn hb_must_any(_p: &Program<Self>, _log: &[Entry<Self::Res>]) -> Vec<(Vec<usize>, usize)> {
+        Vec::new()
+    }
     /// C15: the shared objects an operation touches (any two operations on a common object may
     /// exchange causality).
     fn objects_of(_op: &Self::Op) -> Vec<u32> {
